@@ -69,6 +69,8 @@ def _row_selectors(n, tier):
                 yield ["a", list(t)]
     for t in itertools.product([0, 1], repeat=n):
         yield ["m", list(t)]
+        if n:
+            yield ["lb", list(t)]
 
 
 def _pair_rows(n):
@@ -86,6 +88,9 @@ def _pair_rows(n):
         yield ["l", [-1]]
     for t in itertools.product([0, 1], repeat=n):
         yield ["m", list(t)]
+    if n:
+        yield ["lb", [i % 2 for i in range(n)]]
+        yield ["lb", [1] * n]
 
 
 def _col_selectors(m, tier):
